@@ -123,4 +123,8 @@ impl DisjointSetUnion {
     pub(crate) fn verif_state(&self) -> (Vec<usize>, Vec<usize>) {
         (self.parents.clone(), self.ranks.clone())
     }
+    /// verification hook: rebuild an object in a given state
+    pub(crate) fn verif_from_state(parents: Vec<usize>, ranks: Vec<usize>) -> Self {
+        Self { parents, ranks }
+    }
 }
